@@ -257,7 +257,11 @@ impl StreamingLoop {
             let payload_len = payload_len - last_buf_len.unwrap();
 
             // We received the data from the bulk transfers, try to parse stuff now.
-            let leader = match u3v_stream::Leader::parse(&leader_buf)
+            // Only the bytes received in this iteration are parsed: the rest of `leader_buf` and
+            // `trailer_buf` still holds the packets of earlier frames.
+            let leader_len = first_buf_len.unwrap_or(0).min(leader_buf.len());
+            let trailer_len = last_buf_len.unwrap_or(0).min(trailer_buf.len());
+            let leader = match u3v_stream::Leader::parse(&leader_buf[..leader_len])
                 .map_err(|e| StreamError::InvalidPayload(format!("{}", e).into()))
             {
                 Ok(leader) => leader,
@@ -270,7 +274,7 @@ impl StreamingLoop {
                 }
             };
 
-            let trailer = match u3v_stream::Trailer::parse(&trailer_buf)
+            let trailer = match u3v_stream::Trailer::parse(&trailer_buf[..trailer_len])
                 .map_err(|e| StreamError::InvalidPayload(format!("invalid trailer: {}", e).into()))
             {
                 Ok(trailer) => trailer,
